@@ -24,7 +24,8 @@ CONSTANTS RootCat,    \* category of the top-level list items
 VARIABLES todo, choices, done
 gvars == <<todo, choices, done>>
 
-Usable(v) == /\ Variants[v].fam \in (IF Family = "7" THEN {"both", "7", "7g"} ELSE IF Family = "73" THEN {"both", "7", "7g", "73"} ELSE {"both", Family})
+Usable(v) == /\ Variants[v].fam \in (IF Family = "7" THEN {"both", "7", "7g"} ELSE IF Family = "73" THEN {"both", "7", "7g", "73"}
+                                       ELSE IF Family = "pre73" THEN {"both", "7", "7g", "pre73"} ELSE {"both", Family})
              /\ (Allowed = {} \/ Variants[v].id \in Allowed)
 
 \* pending child requests of a (kind, fill) in source order (= schema order), inline nodes expanded
